@@ -572,6 +572,17 @@ def execute(plan):
     events, violations = [], []
     faults, probes = {}, {}
     trans = set()
+    # an argument handed over as numpy float32 scalar(s) is judged for the VALUE passed: whatever the
+    # generator or the shrinker put in the plan is first rounded to what a float32 holds (idempotent),
+    # so a shrunk candidate such as round(Q, 1) cannot make reference and call disagree on the argument
+    import struct
+    r32 = lambda q: q if q is None else struct.unpack("f", struct.pack("f", float(q)))[0]
+    for op in plan["ops"]:
+        fm = op.get("forms") or {}
+        if fm.get("Q") == "np32" and "Q" in op:
+            op["Q"] = [r32(q) for q in op["Q"]] if isinstance(op["Q"], list) else r32(op["Q"])
+        if fm.get("shift") == "np32scalars" and op.get("shift") is not None:
+            op["shift"] = [r32(x) for x in op["shift"]] if isinstance(op["shift"], list) else r32(op["shift"])
 
     def bump(d, k, n=1):
         d[k] = d.get(k, 0) + n
